@@ -19,10 +19,11 @@ class _F:
 
 def node_order(nch: int, r0: bool, r1: bool, r2: bool, r3: bool, fail: int) -> None:
     """
-    pre: 0 <= nch <= 2 and -1 <= fail <= 3
+    pre: 0 <= nch <= 4 and -1 <= fail <= 7
     post: True
     """
     hlib.enter(locals())
+    hlib.assume(hlib.deep() or (nch <= 2 and fail <= 3))
     kind, op = hlib.PARAM["kind"], hlib.PARAM["op"]
     log = []
     results = [Tok(r0, 'a'), Tok(r1, 'b'), Tok(r2, 'c'), Tok(r3, 'd')]
